@@ -587,7 +587,15 @@ size_t rtosc_print_arg_val(const rtosc_arg_val_t *arg,
             if(arg->type == 'S')
             {
                 plain = true; // "Symbol": are quotes required?
-                if(*val->s != '_' && !isalpha(*val->s))
+                // words with a meaning of their own must be quoted
+                static const char* const reserved[] = {
+                    "true", "false", "nil", "inf", "now", "immediately",
+                    "MIDI", "BLOB", NULL };
+                for(const char* const* r = reserved; *r; ++r)
+                    if(!strcmp(*r, val->s))
+                        plain = false;
+                if(!plain) {}
+                else if(*val->s != '_' && !isalpha(*val->s))
                     plain = false;
                 else for(const char* s = val->s + 1; *s && plain; ++s)
                     plain = (*s == '_' || (isalnum(*s)));
@@ -968,7 +976,7 @@ static const char* skip_word(const char* exp, const char** str)
     int match = (!strncmp(exp, cur, explen) &&
                  (   !cur[explen]
                   || cur[explen] == '/' || cur[explen] == ']'
-                  || cur[explen] == '.'
+                  || cur[explen] == '.' || cur[explen] == '%'
                   || isspace(cur[explen])));
     if(match) {
         *str += explen;
